@@ -7,18 +7,18 @@ package simsync
 
 import (
 	"sync"
-	"unsafe"
 
 	"verifsim/sim/kern"
 )
 
-func call(op kern.Op, obj unsafe.Pointer, a, b int64) kern.Rep {
-	return kern.Call(kern.Req{Op: op, Obj: uintptr(obj), A: a, B: b})
+func call(op kern.Op, id *uint64, a, b int64) kern.Rep {
+	return kern.Call(kern.Req{Op: op, Obj: kern.ObjID(id), A: a, B: b})
 }
 
 // Mutex simulates sync.Mutex.
 type Mutex struct {
 	real sync.Mutex // used outside simulated runs, and as the shadow in the race lane
+	id   uint64
 }
 
 func (m *Mutex) Lock() {
@@ -26,7 +26,7 @@ func (m *Mutex) Lock() {
 		m.real.Lock()
 		return
 	}
-	call(kern.OpLock, unsafe.Pointer(m), 0, 0)
+	call(kern.OpLock, &m.id, 0, 0)
 	if kern.RaceLane && !kern.Aborting() {
 		m.real.Lock()
 	}
@@ -47,7 +47,7 @@ func (m *Mutex) Unlock() {
 	if kern.RaceLane && !kern.Aborting() {
 		m.real.Unlock()
 	}
-	if r := call(kern.OpUnlock, unsafe.Pointer(m), 0, 0); r.Status == kern.StPanicUnlock {
+	if r := call(kern.OpUnlock, &m.id, 0, 0); r.Status == kern.StPanicUnlock {
 		panic("sync: unlock of unlocked mutex")
 	}
 }
@@ -55,6 +55,7 @@ func (m *Mutex) Unlock() {
 // RWMutex simulates sync.RWMutex.
 type RWMutex struct {
 	real sync.RWMutex
+	id   uint64
 }
 
 func (m *RWMutex) Lock() {
@@ -62,7 +63,7 @@ func (m *RWMutex) Lock() {
 		m.real.Lock()
 		return
 	}
-	call(kern.OpLock, unsafe.Pointer(m), 0, 0)
+	call(kern.OpLock, &m.id, 0, 0)
 	if kern.RaceLane && !kern.Aborting() {
 		m.real.Lock()
 	}
@@ -76,7 +77,7 @@ func (m *RWMutex) Unlock() {
 	if kern.RaceLane && !kern.Aborting() {
 		m.real.Unlock()
 	}
-	if r := call(kern.OpUnlock, unsafe.Pointer(m), 0, 0); r.Status == kern.StPanicUnlock {
+	if r := call(kern.OpUnlock, &m.id, 0, 0); r.Status == kern.StPanicUnlock {
 		panic("sync: Unlock of unlocked RWMutex")
 	}
 }
@@ -86,7 +87,7 @@ func (m *RWMutex) RLock() {
 		m.real.RLock()
 		return
 	}
-	call(kern.OpRLock, unsafe.Pointer(m), 0, 0)
+	call(kern.OpRLock, &m.id, 0, 0)
 	if kern.RaceLane && !kern.Aborting() {
 		m.real.RLock()
 	}
@@ -100,7 +101,7 @@ func (m *RWMutex) RUnlock() {
 	if kern.RaceLane && !kern.Aborting() {
 		m.real.RUnlock()
 	}
-	if r := call(kern.OpRUnlock, unsafe.Pointer(m), 0, 0); r.Status == kern.StPanicRUnlock {
+	if r := call(kern.OpRUnlock, &m.id, 0, 0); r.Status == kern.StPanicRUnlock {
 		panic("sync: RUnlock of unlocked RWMutex")
 	}
 }
@@ -115,6 +116,7 @@ func (r rlocker) Unlock() { r.m.RUnlock() }
 // WaitGroup simulates sync.WaitGroup.
 type WaitGroup struct {
 	real sync.WaitGroup
+	id   uint64
 }
 
 func (w *WaitGroup) Add(n int) {
@@ -125,7 +127,7 @@ func (w *WaitGroup) Add(n int) {
 	if kern.RaceLane && !kern.Aborting() {
 		w.real.Add(n)
 	}
-	if r := call(kern.OpWGAdd, unsafe.Pointer(w), int64(n), 0); r.Status == kern.StPanicNegativeWG {
+	if r := call(kern.OpWGAdd, &w.id, int64(n), 0); r.Status == kern.StPanicNegativeWG {
 		panic("sync: negative WaitGroup counter")
 	}
 }
@@ -137,7 +139,7 @@ func (w *WaitGroup) Wait() {
 		w.real.Wait()
 		return
 	}
-	call(kern.OpWGWait, unsafe.Pointer(w), 0, 0)
+	call(kern.OpWGWait, &w.id, 0, 0)
 	if kern.RaceLane && !kern.Aborting() {
 		w.real.Wait()
 	}
